@@ -137,7 +137,7 @@ fn main() {
                 &argv[4],
                 argv[5].parse().expect("honest"),
                 argv[6].parse().expect("droppers"),
-                argv[7] == "1",
+                argv[7].parse().expect("mode"),
             );
         }
         Some("child-e2e19") => {
